@@ -42,6 +42,23 @@ def mset(items):
     return tuple(sorted(c.items(), key=repr))
 
 
+def fold_number_twins(v):
+    """Canonical value with integral floats folded onto ints (1.0 -> 1).  Graphtage, like JSON, has one notion of
+    'number': a script that keeps `1` where the second document says `1.0` describes the same data.  Used by oracles
+    that must not take a side on int-vs-float (the pairs are still generated)."""
+    if isinstance(v, tuple):
+        if len(v) == 2 and v[0] == "f":
+            try:
+                f = float(v[1])
+                if f == int(f) and abs(f) < 2**53:
+                    return ("i", int(f))
+            except (ValueError, OverflowError):
+                pass
+            return v
+        return tuple(fold_number_twins(x) for x in v)
+    return v
+
+
 def typed_eq(a, b) -> bool:
     return canon(a) == canon(b)
 
